@@ -15,7 +15,7 @@ BUDGET = {'quick': 360, 'thorough': 2400}
 SOURCES = ['src/dtaidistance/dtw.py', 'src/dtaidistance/ed.py', 'src/dtaidistance/innerdistance.py',
            'src/DTAIDistanceC/DTAIDistanceC/dd_dtw.c', 'src/DTAIDistanceC/DTAIDistanceC/dd_ed.c']
 FUNCTIONS = ['dtw.distance', 'ed.distance', 'dd_dtw.c dtw_distance / dtw_distance_euclidean / dtw_distance_ndim', 'dd_ed.c euclidean_distance']
-BOUNDS = {'quick': {'r,c': '1..4 (max_step pairs: r*c <= 6; C engine: <= 3)', 'window': 'all', 'psi': '0..2 / tuples', 'ndim (C)': '1..2'},
+BOUNDS = {'quick': {'r,c': '1..4 (max_step pairs: r*c <= 4; C engine: <= 3)', 'inner distance (C)': 'squared euclidean; euclidean for identity / symmetry / window / psi', 'window': 'all', 'psi': '0..2 / tuples', 'ndim (C)': '1..2'},
           'thorough': {'r,c': '1..6 (max_step pairs: r*c <= 9; C engine: <= 4)', 'window': 'all', 'psi': '0..3 / tuples', 'ndim (C)': '1..2'}}
 OUTSIDE = ['floating point rounding', 'sizes above the bound', 'mirroring step of distances_array_to_matrix (C06)']
 ASSUMPTIONS = ['cost-matrix mode: every non-negative cost matrix is realisable through a user supplied inner distance',
@@ -56,6 +56,9 @@ def tasks(tier, seed):
                             continue
                         ts.append({'harness': 'c/%s/%dd' % (law, ndim), 'law': law, 'engine': 'c', 'ndim': ndim, 'r': r,
                                    'c': c, 'tier': tier, 'seed': seed, 'est': 3 * r * c * ndim})
+                    if law in ('identity', 'symmetry', 'window', 'psi'):      # the *_euclidean kernels (inner_dist = 1)
+                        ts.append({'harness': 'c/%s/1d-abs' % law, 'law': law, 'engine': 'c', 'ndim': 1, 'inner': 'euclidean', 'r': r,
+                                   'c': c, 'tier': tier, 'seed': seed, 'est': 3 * r * c})
     ts.sort(key=lambda t: -t['est'])
     return ts
 
@@ -86,7 +89,7 @@ def run_task(cfg):
     def mk_mode(rr, cc, prefix='d', shared=False):
         if eng == 'py' and law not in ('identity', 'w1-ed'):
             return dtwh.CostMode(rr, cc, prefix)
-        return dtwh.SeriesMode(rr, cc, 'squared euclidean', ndim=ndim, shared=shared)
+        return dtwh.SeriesMode(rr, cc, cfg.get('inner', 'squared euclidean'), ndim=ndim, shared=shared)
 
     def paths(mode, kw, assume, s1=None, s2=None):
         if eng == 'py':
@@ -154,7 +157,7 @@ def run_task(cfg):
                             inner_val = staticmethod(lambda x: x)
                         m2.inner = InnerT
                     else:
-                        m2 = dtwh.SeriesMode(c, r, 'squared euclidean', ndim=ndim)
+                        m2 = dtwh.SeriesMode(c, r, cfg.get('inner', 'squared euclidean'), ndim=ndim)
                         m2.a, m2.b = mode.b, mode.a
                         m2.s1, m2.s2 = mode.s2, mode.s1
                     extras = [None]
